@@ -107,7 +107,7 @@ def mc_text(ctx, max_wraps):
     body += "MCLams == {R(1, 2), R(2, 1)}\nMCUnitaries == {\n " + ",\n ".join(unitaries()) + "}\n"
     body += "MCAlphas == {R(1, 2), R(1, 1), R(2, 1)}\nMCPoints == {\n " + ",\n ".join(P) + "}\n"
     cfg = ("INIT Init\nNEXT Next\nCONSTANTS\n Bases <- MCBases\n StackBases <- MCStackBases\n Lams <- MCLams\n Unitaries <- MCUnitaries\n Alphas <- MCAlphas\n Points <- MCPoints\n"
-           " MaxWraps = %d\n SqrtBound = 400\n" % max_wraps + "".join("INVARIANT %s\n" % i for i in INVS))
+           " MaxWraps = %d\n SqrtBound = 2000\n" % max_wraps + "".join("INVARIANT %s\n" % i for i in INVS))
     return body, cfg
 
 
@@ -188,13 +188,17 @@ def build(sp, e, shape, cplx):
         return P.Conj(build(sp, e["s"][0], shape, cplx))
     if k == "Stack":
         n1, n2 = expr_size(e["s"][0]), expr_size(e["s"][1])
-        s1 = factorizations(n1)[min(1, len(factorizations(n1)) - 1)]
+        s1 = [n1] if has_kind(e["s"][0], {"Stack", "Unitary"}) else factorizations(n1)[min(1, len(factorizations(n1)) - 1)]
         return P.Stack([build(sp, e["s"][0], s1, cplx), build(sp, e["s"][1], [n2], cplx)])
     if k == "Unitary":
         U = np.array([[cval(c) for c in row] for row in e["m"][0]], dtype=np.complex128)
         if not np.iscomplexobj(U) or np.all(U.imag == 0):
             U = U.real.copy() if not cplx else U
-        A = sp.linop.MatMul(shape, U)
+        if len(shape) == 1:   # 1-D prox shapes (needed under Stack): reshape around the matrix product
+            nn = shape[0]
+            A = sp.linop.Reshape([nn], [nn, 1]) * sp.linop.MatMul([nn, 1], U) * sp.linop.Reshape([nn, 1], [nn])
+        else:
+            A = sp.linop.MatMul(shape, U)
         return P.UnitaryTransform(build(sp, e["s"][0], shape, cplx or np.iscomplexobj(U)), A)
     raise KeyError(k)
 
@@ -215,7 +219,7 @@ def check_eval(sp, st):
         if cplx and has_kind(e, {"Box"}):
             continue
         exp = np.array([cval(c) for c in out], dtype=np.complex128)
-        if e["k"] == "Stack":
+        if has_kind(e, {"Stack"}):
             shapes = [[n]]
         elif has_kind(e, {"Unitary"}):
             shapes = [[n, 1]]
